@@ -508,6 +508,11 @@ def check_C17(tier):
         expect_holds(r, "Printer (two columns)"); c.add_tlc(r)
         rep = vh_replay("printer", r.replay_path, "printer-two", env_extra={"TZ": "UTC"})
         c.add_report(rep, "OutputPrinter vs Printer.tla (replay)")
+    # impl -> spec over random results: any 64-bit integer, any finite or non-finite REAL, TEXT with control characters / quotes / delimiters (JSON), arrays, timestamps
+    # within the same second as the one printed before, 1-3 print() calls per printer; replayed through Printer.tla's own PrintResult action
+    trace_check(c, "printer", "Trace_Printer", 12000 if t else 3000, "printer", "random results vs Printer.tla (trace)",
+                constants={"Dev": set(), "Formats": {q("text")}, "ResultMenu": set(), "MaxCalls": 0}, rounds=3 if t else 1, env={"TZ": "UTC"},
+                invariants=("TraceUnfinished", "EveryRowOnceInOrder", "HeaderOnce"))
     # the records as the process prints them on stdout in every --format (header once, one record per line, statistics line last)
     cli_run(c, "formats", ["all", "count", "second", "limit1", "limit2"], ["ok", "two"], ["text", "json", "csv"], 2, sample=None if t else 1500)
     # the interactive loop: results are not "single" there -- the rows one line fans out to are followed by an empty line, an aggregate's final table is not
